@@ -485,10 +485,16 @@ func c04Rotation(r *core.Run, idx int, rng *rand.Rand) {
 			call := sc.callback(e)
 			r.Eval(fmt.Sprintf("%s|%d|%d", class, idx, k))
 			r.Count("artefacts_after_key_changes", 1)
-			if call.Panic != "" || !call.D.Success() {
-				r.Violate(core.Violation{Clause: "no_success_after_key_change", Class: class, Reason: fmt.Sprintf("status %d %s", call.D.Status, call.Panic), Workload: wl, Index: idx, Observed: call.Describe()})
+			if call.Panic != "" {
+				r.Violate(core.Violation{Clause: "panic", Class: class, Reason: call.Panic, Workload: wl, Index: idx, Observed: call.Describe()})
 				continue
 			}
+			if !call.D.Success() {
+				// nothing signed left the IdP (a provider may refuse, e.g., to answer without a consumer URL)
+				r.Count("no_success_after_key_change", 1)
+				continue
+			}
+			r.Count("success_after_key_change", 1)
 			fails, _, oerr := verifyEmitted(call.D, mv.Cert)
 			if oerr != nil {
 				r.Inconclusive("python oracle unavailable: " + oerr.Error())
@@ -530,6 +536,7 @@ func init() {
 			r.Require("records_persisted_by_sso", 50)
 			r.Require("answers_produced_side_by_side", 200)
 			r.Require("artefacts_after_key_changes", 300)
+			r.Require("success_after_key_change", 60)
 			r.Require("class_c14n_plain", 100)
 			r.Require("class_c14n_special", 50)
 			return []core.Workload{
